@@ -105,7 +105,8 @@ Definition ft_receive (c : tr_cfg) (dest : path) (f0 : fs) (sch : list tr_sched)
 (* the verdict of Protocol.v's decision model on the lines of one saved file *)
 Definition ft_verdict (c : tr_cfg) (sv : ft_saved) : verdict :=
   if tr_pipeline c then
-    (* the machine of Model/Transfer.v checks the size atomically: the schedule in which the saver's check decides *)
+    (* the machine of Model/Transfer.v checks the size atomically, as the code does since d144b66 (recv_v2 is the
+       same function for every schedule: Proofs/Protocol.v recv_v2_eq) *)
     recv_v2 digest H deq (ft_decode c (fv_cp sv)) None (Z.of_N (fv_size sv)) [] (map ft_line (fv_msgs sv))
   else
     recv_v1 digest H deq (ft_decode1 c) (length (fv_msgs sv)) (Z.of_N (fv_size sv)) [] (map ft_line (fv_msgs sv)).
